@@ -156,7 +156,51 @@ func genEarlyGrant(t *rapid.T, c *H2Case) {
 	}
 }
 
+// genRaiseBySettings: the receiver starts with a small stream window, the sender hands the relay more than that on one
+// stream (the relay forwards what fits - a positive residue of the window remains - and holds the rest), and the receiver
+// then enlarges its windows with SETTINGS_INITIAL_WINDOW_SIZE and nothing else. What the enlarged window permits is due.
+func genRaiseBySettings(t *rapid.T, c *H2Case) {
+	sender := rapid.SampledFrom([]string{"B", "A"}).Draw(t, "rsender")
+	receiver := map[string]string{"A": "B", "B": "A"}[sender]
+	small := rapid.SampledFrom([]int{20000, 30000, 40000, 16384}).Draw(t, "rsmall")
+	if receiver == "A" {
+		c.InitWinA = small
+	} else {
+		c.InitWinB = small
+	}
+	k := rapid.IntRange(0, c.Streams-1).Draw(t, "rstream")
+	base := Step{Pad: -1, InitWin: -1, MaxFrame: -1, TableSz: -1}
+	add := func(s Step) { c.Steps = append(c.Steps, s) }
+	if sender == "B" {
+		rq := base
+		rq.Op, rq.Side, rq.Stream, rq.Hdr = "headers", "A", k, 0
+		add(rq)
+	}
+	h := base
+	h.Op, h.Side, h.Stream, h.Hdr = "headers", sender, k, 1
+	add(h)
+	n := rapid.IntRange(3, 5).Draw(t, "rdata")
+	for i := 0; i < n; i++ {
+		d := base
+		d.Op, d.Side, d.Stream, d.Len = "data", sender, k, rapid.SampledFrom([]int{16384, 16000, 9000}).Draw(t, "rlen")
+		d.End = i == n-1 && rapid.Bool().Draw(t, "rend")
+		add(d)
+	}
+	sy := base
+	sy.Op, sy.Side = "sync", sender
+	add(sy)
+	st := base
+	st.Op, st.Side, st.InitWin = "settings", receiver, rapid.SampledFrom([]int{100000, 200000}).Draw(t, "rraise")
+	add(st)
+	sy.Side = receiver
+	add(sy)
+}
+
 func genSteps(t *rapid.T, c *H2Case, flow bool) {
+	if rapid.IntRange(0, 5).Draw(t, "raisebysettings") == 0 {
+		genRaiseBySettings(t, c)
+		return
+	}
 	if flow && c.Streams >= 2 && rapid.IntRange(0, 3).Draw(t, "pressure") == 0 {
 		genPressure(t, c)
 		return
@@ -1230,7 +1274,13 @@ func (r *h2run) deliveredUnderGrantedWindows() {
 				if rst1 || rst2 || rst3 || sentN <= gotN {
 					continue
 				}
-				availStream := d.recv.initLo + d.recv.grant[id] - d.recv.recvFlow[id]
+				// the initial window in force: the value last announced - unless a lowered value still waits for its
+				// barrier marker, then the smallest value ever announced (the relay may be on either side of the change)
+				initWin := d.recv.initLo
+				if d.recv.initNew < 0 {
+					initWin = d.recv.initHi
+				}
+				availStream := initWin + d.recv.grant[id] - d.recv.recvFlow[id]
 				availConn := 65535 + d.recv.grantConn - d.recv.recvConn
 				if availStream >= d.recv.maxFrameHi && availConn >= d.recv.maxFrameHi {
 					key := "C10:stranded:windows-permit"
